@@ -80,6 +80,10 @@ def take(h, t):
         gmodel = t.d.e['graph_model'][1]
         gid = gmodel.d.e['graph_id'][1]
         store = I.getattr_(gmodel.d.e['storage'][1], 'graphs')
+        if isinstance(store, PDict):
+            # the one-graph-per-store back end: a dictionary graph id -> graph
+            hits = [v[1] for k, v in store.e.items() if k is gid or (not is_sym(k) and not is_sym(gid) and k == gid)]
+            store = hits[0] if hits else NXGraph()
         G = snapshot(store)
         keys = sorted(n for n in G.node.e if G.node.e[n][1].e.get('GraphID', [None, None])[1] is gid)
         rank = {n: i + 1 for i, n in enumerate(keys)}
